@@ -1324,6 +1324,27 @@ class Interp:
                 if inner[0] == "enum" and inner[1] == ERRV:
                     return [(OK, inner, st)]
             return [(OK, ("enum", OKV, (unk("transpose"),)), st), (OK, ("enum", ERRV, (unk("transpose"),)), st)]
+        if callee == "core::option::Option::<T>::ok_or_else":
+            v = self.deref_val(st, args[0])
+            if v[0] == "enum" and v[1] == SOME:
+                return [(OK, ("enum", OKV, v[2]), st)]
+            if v[0] == "enum" and v[1] == NONE:
+                return self.then(self.apply(args[1], [], st, n), lambda r, s: [(OK, ("enum", ERRV, (r,)), s)])
+            return [(OK, ("enum", OKV, (unk("ok_or"),)), st), (OK, ("enum", ERRV, (unk("ok_or"),)), st)]
+        if callee == "core::option::Option::<T>::ok_or":
+            v = self.deref_val(st, args[0])
+            if v[0] == "enum" and v[1] == SOME:
+                return [(OK, ("enum", OKV, v[2]), st)]
+            if v[0] == "enum" and v[1] == NONE:
+                return [(OK, ("enum", ERRV, (args[1],)), st)]
+            return [(OK, ("enum", OKV, (unk("ok_or"),)), st), (OK, ("enum", ERRV, (args[1],)), st)]
+        if callee == "core::result::Result::<T, E>::map_err":
+            v = self.deref_val(st, args[0])
+            if v[0] == "enum" and v[1] == OKV:
+                return [(OK, v, st)]
+            if v[0] == "enum" and v[1] == ERRV:
+                return self.then(self.apply(args[1], [v[2][0]], st, n), lambda r, s: [(OK, ("enum", ERRV, (r,)), s)])
+            return [(OK, ("enum", OKV, (unk("map_err"),)), st), (OK, ("enum", ERRV, (unk("map_err"),)), st)]
         if callee == "core::option::Option::<T>::map_or":
             v = self.deref_val(st, args[0])
             if v[0] == "enum" and v[1] == NONE:
